@@ -108,7 +108,11 @@ class HostileRun:
         self.pub = Actor(w, "P")
         self.pub.open()
         self.pub.handshake("v1", req_id=92)
-        self.bystanders = [self.mon, self.sub, self.pub]
+        # a well-behaved module that allows further instances of its id
+        self.multi = Actor(w, "M")
+        self.multi.open()
+        self.multi.handshake("v2v1", req_id=93, allow_multiple=True, name=b"bystander_m")
+        self.bystanders = [self.mon, self.sub, self.pub, self.multi]
         w.quiesce()
         self.p_sent = []
 
@@ -125,13 +129,14 @@ class HostileRun:
                 a.subscribe(ch.choose("host.earlyt", [C.ALL_MESSAGE_TYPES, C.MT_RTMA_LOG_ERROR, C.MT_RTMA_LOG_INFO, 1000,
                                                        C.MT_CLIENT_CLOSED, C.MT_FAILED_MESSAGE, C.MT_CLIENT_INFO]))
             if ch.flag("host.early_then_connect", 2, 3):
-                rid = ch.choose("host.early_rid", [0, 91, 92, 90, 25, 101, -1])
+                rid = ch.choose("host.early_rid", [0, 91, 92, 90, 25, 101, -1, 93])
                 a.handshake(ch.choose("host.proto", ["v2v1", "v1", "v2"]), req_id=rid, allow_multiple=ch.flag("host.em", 1, 2),
                             name=ch.choose("host.ename", [b"", b"monitor", b"bystander_s"]))
         elif stage != "fresh":
-            rid = ch.weighted("host.rid", [(3, 0), (2, 20 + ch.pick("host.ridn", 10))])
+            rid = ch.weighted("host.rid", [(6, 0), (4, 20 + ch.pick("host.ridn", 10)), (1, 93), (1, 91)])
             a.handshake(ch.choose("host.proto", ["v2v1", "v1", "v2"]), req_id=rid,
-                        logger=ch.flag("host.logger", 1, 6), allow_multiple=True,
+                        logger=ch.flag("host.logger", 1, 6),
+                        allow_multiple=True if rid not in (91, 93) else ch.flag("host.multi", 1, 2),
                         name=ch.choose("host.hname", NAMES) if ch.flag("host.named", 1, 3) else b"")
             if stage == "subscribed":
                 t = ch.choose("host.subt", [1000, 4000, C.ALL_MESSAGE_TYPES, C.MT_CLIENT_CLOSED,
